@@ -16,4 +16,4 @@ Task: produce ONE small, realistic change to the androguard source in {wt} (the 
   (a) the package still imports, and the existing test suite still passes (run at least the test files that touch the changed module: `cd {wt} && /venv/bin/python -m pytest tests/<relevant>.py -q -p no:cacheprovider -x`; the full suite takes ~6 minutes: `/venv/bin/python -m pytest -q -p no:cacheprovider --timeout=900` — run it at the end; 6 tests fail already WITHOUT any change: tests.test_apk.APKTest::testAPK, ::testCustomPermissionProtectionLevel, ::testFeatures, ::testFrameworkResAPK, ::testMultipleLocaleAppName and tests.test_strings.StringTest::testMUTF8 — ignore those);
   (b) the property above is violated, but only for something specific: an unusual input, a particular multi-step sequence of operations, a boundary value, a particular interleaving or fault, or two cooperating sites that each look fine alone;
   (c) you have a demonstration: a small standalone script `demo.py` (placed in {wt}/seed_demo/) that exits 0 on the UNCHANGED code and exits non-zero (assert failure) WITH your change, by checking the property on the specific triggering input.
-Deliver in {wt}/seed_demo/: `patch.diff` (output of `git -C {wt} diff -- androguard` — source changes only), `demo.py`, and `meta.json` with keys: property ("{pid}"), summary (one sentence: what was changed), needs (what specific input/sequence/condition is required for the violation to manifest), files (changed files), ran (the commands you ran and their outcome, including the test results with and without the change). Verify (c) both ways yourself (use `git stash` or `git diff > patch; git checkout -- androguard; …; git apply patch`). Leave the worktree with the change APPLIED and seed_demo/ present. Final message: the contents of meta.json. Do not commit.""")
+Deliver in {wt}/seed_demo/: `patch.diff` (output of `git -C {wt} diff -- androguard` — source changes only), `demo.py`, and `meta.json` with keys: property ("{pid}"), summary (one sentence: what was changed), needs (what specific input/sequence/condition is required for the violation to manifest), files (changed files), ran (the commands you ran and their outcome, including the test results with and without the change). Verify (c) both ways yourself with `git diff -- androguard > seed_demo/patch.diff; git checkout -- androguard; …; git apply seed_demo/patch.diff` (NEVER use `git stash`: the stash is shared with other worktrees of this repository). Leave the worktree with the change APPLIED and seed_demo/ present. Final message: the contents of meta.json. Do not commit.""")
